@@ -1202,14 +1202,14 @@ Proof.
         split; [exact H1|]. split; [intros; apply H2|]. congruence.
 Qed.
 
-Theorem Inv2_init n progs : Inv2 (init_config n progs).
+Theorem Inv2_init_z zs progs : Inv2 (init_config_z zs progs).
 Proof.
   constructor.
-  - intros t f H. apply init_top in H as [c ->]. apply pc_ok_new.
-  - intros t f i H _. apply init_top in H as [c ->].
+  - intros t f H. apply init_top_z in H as [c ->]. apply pc_ok_new.
+  - intros t f i H _. apply init_top_z in H as [c ->].
     destruct (fresh_frame_props (new_frame c)) as (_ & H & _); [left; eauto|apply H].
-  - intros j i H. cbn in H. apply nth_error_In, repeat_spec in H. subst i. intros k e Hk. discriminate.
-  - intros t1 t2 f1 f2 e _ H1 _ _ Hp. apply init_top in H1 as [c ->]. destruct c; discriminate.
+  - intros j i H. cbn in H. rewrite nth_error_map in H. destruct (nth_error zs j) as [z|]; [|discriminate]. injection H as <-. intros k e Hk. discriminate.
+  - intros t1 t2 f1 f2 e _ H1 _ _ Hp. apply init_top_z in H1 as [c ->]. destruct c; discriminate.
   - intros t th. cbn. rewrite nth_error_map. destruct (nth_error progs t) as [p|]; [|discriminate]. cbn.
     intros [= <-]. unfold next_call. cbn. destruct p; cbn; constructor.
 Qed.
@@ -1221,8 +1221,12 @@ Proof.
   apply IH; [eapply Inv_step; eauto|eapply Inv2_step; eauto].
 Qed.
 
-Theorem Inv2_reachable n progs sched : Inv2 (run_schedule (init_config n progs) sched).
-Proof. apply Inv12_run; [apply Inv_init|apply Inv2_init]. Qed.
+Theorem Inv2_reachable zs progs sched : Inv2 (run_schedule (init_config_z zs progs) sched).
+Proof. apply Inv12_run; [apply Inv_init_z|apply Inv2_init_z]. Qed.
+
+Theorem Inv2_init n progs : Inv2 (init_config n progs).
+Proof. rewrite init_config_eq. apply Inv2_init_z. Qed.
+
 
 (* ================================================================== *)
 (* Part B. Programs of Load / LoadOrStore / LoadAndDelete only (sync2.Set's
@@ -1985,7 +1989,7 @@ Proof.
   fold (sumZ (map g l)). rewrite IH; [reflexivity|]. intros y Hy. apply H. right. exact Hy.
 Qed.
 
-Theorem Inv3_init j k n progs : Forall (Forall frag) progs -> Inv3 j k (init_config n progs).
+Theorem Inv3_init j k zs progs : Forall (Forall frag) progs -> Inv3 j k (init_config_z zs progs).
 Proof.
   intros Hfr. constructor.
   - intros t th. cbn. rewrite nth_error_map. destruct (nth_error progs t) as [p|] eqn:E; [|discriminate]. cbn.
@@ -1995,7 +1999,7 @@ Proof.
     + inversion Hp; subst. split; [assumption|]. split; [constructor; [assumption|constructor]|cbn; lia].
   - intros t th. cbn. rewrite nth_error_map. destruct (nth_error progs t) as [p|]; [|discriminate]. cbn.
     intros [= <-]. unfold next_call. cbn. destruct p; reflexivity.
-  - intros i Hi. cbn in Hi. apply nth_error_In, repeat_spec in Hi. subst i. cbn.
+  - intros i Hi. cbn in Hi. rewrite nth_error_map in Hi. destruct (nth_error zs j) as [z|]; [|discriminate]. injection Hi as <-. cbn.
     unfold pending. cbn. rewrite sumZ_zero; [reflexivity|].
     intros th Hin. apply in_map_iff in Hin as (p & <- & _). unfold next_call. cbn.
     destruct p; cbn; [reflexivity|apply pend_new].
@@ -2013,14 +2017,14 @@ Qed.
    Load / LoadOrStore / LoadAndDelete, for every instance j and key k:
    (#LoadOrStore(j,k) results with loaded = false) - (#LoadAndDelete(j,k) results
    with loaded = true) + (effects of calls in flight not yet reported) = [k present]. *)
-Theorem conservation n progs sched j k i :
+Theorem conservation zs progs sched j k i :
   Forall (Forall frag) progs ->
-  let c := run_schedule (init_config n progs) sched in
+  let c := run_schedule (init_config_z zs progs) sched in
   nth_error (c_insts c) j = Some i ->
   stored j k (c_hist c) - deleted j k (c_hist c) + pending j k c = Aof (i_st i) k.
 Proof.
   intros Hfr c Hi.
-  destruct (Inv123_run j k (init_config n progs) sched (Inv_init n progs) (Inv2_init n progs) (Inv3_init j k n progs Hfr))
+  destruct (Inv123_run j k (init_config_z zs progs) sched (Inv_init_z zs progs) (Inv2_init_z zs progs) (Inv3_init j k zs progs Hfr))
     as (_ & _ & [_ _ Hbal]).
   rewrite <- balance_counts. apply Hbal. exact Hi.
 Qed.
@@ -2032,13 +2036,13 @@ Proof.
 Qed.
 
 (* when every goroutine has finished: stored - deleted = 1 if k is in the map, else 0 *)
-Theorem conservation_quiescent n progs sched j k i :
+Theorem conservation_quiescent zs progs sched j k i :
   Forall (Forall frag) progs ->
-  let c := run_schedule (init_config n progs) sched in
+  let c := run_schedule (init_config_z zs progs) sched in
   nth_error (c_insts c) j = Some i -> finished c = true ->
   stored j k (c_hist c) - deleted j k (c_hist c) = Aof (i_st i) k.
 Proof.
-  intros Hfr c Hi Hfin. pose proof (conservation n progs sched j k i Hfr Hi) as H. cbv zeta in H.
+  intros Hfr c Hi Hfin. pose proof (conservation zs progs sched j k i Hfr Hi) as H. cbv zeta in H.
   fold c in H. rewrite (pending_finished j k c Hfin) in H. lia.
 Qed.
 
@@ -2093,35 +2097,35 @@ Proof.
       * intros k e Hk. apply not_exp_get. apply (wf_clean s Hc Hd k e Hk).
 Qed.
 
-Theorem seq_WF_when_unlocked n progs sched j i :
-  let c := run_schedule (init_config n progs) sched in
+Theorem seq_WF_when_unlocked zs progs sched j i :
+  let c := run_schedule (init_config_z zs progs) sched in
   nth_error (c_insts c) j = Some i -> i_mu i = None -> seq_WF (i_st i).
 Proof.
   intros c Hi Hmu. apply WF_WF2_seq.
-  - apply (structure_lock_free n progs sched j i Hi Hmu).
-  - apply (i2_wf2 c (Inv2_reachable n progs sched) j i Hi).
+  - apply (structure_lock_free_z zs progs sched j i Hi Hmu).
+  - apply (i2_wf2 c (Inv2_reachable zs progs sched) j i Hi).
 Qed.
 
 (* entries that were never in a read map hold a value, at every moment *)
-Theorem dirty_only_entries_hold_values n progs sched j i :
-  let c := run_schedule (init_config n progs) sched in
+Theorem dirty_only_entries_hold_values zs progs sched j i :
+  let c := run_schedule (init_config_z zs progs) sched in
   nth_error (c_insts c) j = Some i ->
   forall k e, dirty_lookup (i_st i) k = Some e -> read_m (i_st i) !! k = None -> exists v, get_ent (i_st i) e = PVal v.
-Proof. intros c Hi. apply (i2_wf2 c (Inv2_reachable n progs sched) j i Hi). Qed.
+Proof. intros c Hi. apply (i2_wf2 c (Inv2_reachable zs progs sched) j i Hi). Qed.
 
 (* the entry a goroutine is about to compare-and-swap on a lock-free path
    (tryStore, tryLoadOrStore, entry.delete on an entry of a read map) is still
    the one the current read map holds for the key, or it is expunged and no
    longer reachable from either map (so the CAS fails / reports a miss) *)
-Theorem stale_entry_is_dead n progs sched t f i e :
-  let c := run_schedule (init_config n progs) sched in
+Theorem stale_entry_is_dead zs progs sched t f i e :
+  let c := run_schedule (init_config_z zs progs) sched in
   top_frame c t = Some f -> nth_error (c_insts c) (call_inst (f_call f)) = Some i -> f_e f = Some e ->
   (f_pc f = TryStore_load \/ f_pc f = TryStore_cas \/
    ((f_pc f = Tlos_load1 \/ f_pc f = Tlos_cas \/ f_pc f = Tlos_load2) /\ f_mode f = MFast) \/
    ((f_pc f = Delete_load \/ f_pc f = Delete_cas) /\ f_rd_m f !! key_of (f_call f) <> None)) ->
   pub_or_dead (i_st i) (key_of (f_call f)) e.
 Proof.
-  intros c Hf Hi He Hpc. pose proof (Inv2_reachable n progs sched) as HI2.
+  intros c Hf Hi He Hpc. pose proof (Inv2_reachable zs progs sched) as HI2.
   destruct (i2_ref c HI2 t f i Hf Hi) as [Hre _]. pose proof (i2_pc c HI2 t f Hf) as Hpk.
   unfold ref_e in Hre. unfold frame_pc_ok in Hpk.
   destruct Hpc as [Hpc|[Hpc|[[Hpc Hm]|[Hpc Hrd]]]].
